@@ -1,7 +1,7 @@
 (* Extraction of the C01 x86 structural decoder, database matcher and judge (ExtrOcamlBasic only). *)
 From Coq Require Extraction ExtrOcamlBasic.
-From Verif Require Import X86.X86Model X86.X86Denote X86.X86Choice.
+From Verif Require Import X86.X86Model X86.X86Denote X86.X86Choice X86.X86Reencode X86.X86Shortest.
 From VerifGen Require Import IsaX86Db.
 Extraction Blacklist List String Int.
-Extraction "x86.ml" IsaX86Db.bucket IsaX86Db.wbucket IsaX86Db.row_of IsaX86Db.db_rows X86Denote.judge X86Denote.other_names X86Denote.denote X86Denote.denote2 X86Choice.mod_check
+Extraction "x86.ml" IsaX86Db.bucket IsaX86Db.wbucket IsaX86Db.row_of IsaX86Db.db_rows X86Denote.judge X86Denote.other_names X86Denote.denote X86Denote.denote2 X86Choice.mod_check X86Reencode.reencode_check X86Shortest.extra_check
   X86Model.sdec X86Model.sdec_head X86Model.senc X86Model.wf X86Model.adm.
